@@ -45,6 +45,11 @@ def witness_sources():
         'match-arm-types-unchecked': main('    let opt: Option = Option.Some { value: 4 }\n    let v: int = match opt { Some(s) => s.value, None(n) => true }\n    (println v)',
                                           'union Option {\n    Some { value: int },\n    None { }\n}\n'),
         'opaque-arg-type-unchecked': main('    let v: int = (hnd true)\n    (println v)', 'opaque type Handle\nfn hnd(h: Handle) -> int {\n    return 1\n}\nshadow hnd { assert true }\n'),
+        # arrays (array<int>): operands of at / array_length and the element type of a literal
+        'at-index-unchecked': main('    let v5: array<int> = [1, 2, 3]\n    let v6: int = (at v5 true)\n    (println v6)'),
+        'at-array-operand-unchecked': main('    let v6: int = (at [1, 2, 3] 0)\n    (println (+ v6 (at 7 0)))'),
+        'array-length-arg-unchecked': main('    let v6: int = (array_length 7)\n    (println v6)'),
+        'array-element-type-unchecked': main('    let v5: array<int> = [true]\n    (println (+ 1 (at v5 0)))'),
         'anon-struct-literal-arg': main('    let v: int = (f1 { x: 1, y: 2 })\n    (println v)', 'struct Point {\n    x: int,\n    y: int\n}\n' + F1),
         # reviewer's program: a string literal for an int parameter inside println -- the same diagnostic site as call-arg-type-unchecked,
         # here the VM then stops with a run-time type error and cc refuses the C text
@@ -110,7 +115,7 @@ def run(ck):
             for q in ms:
                 q['prog'] = i
                 q['src'] = T.to_nano(T.prog_ast(q['sexp']))
-                q['cause'] = T.root_cause(q['rule'], progs[i]['fns'][q['fn']], q['path'])
+                q['cause'] = T.root_cause(q['rule'], progs[i]['fns'][q['fn']], q['path'], q['arg'])
                 q['cls'] = T.mutant_class(q['rule'], progs[i]['fns'][q['fn']], q['path'])
                 items.append(q)
                 ck.extra['rules'][q['rule']] += 1
